@@ -114,6 +114,10 @@ def build_scanner(flex, flexsrc, workdir, name, rs, cfg, lex_seed=0, flex_timeou
             t = {'arrays': A, 'consts': t['consts']}
     b['table_lines'] = tl
     b['flags'] = flags
+    # what the user asked for (manual: interactive unless -Cf/-CF or %option batch is given) — taken
+    # from the options, not from the generated code, so that the model states the expectation
+    fullish = any(('f' in o or 'F' in o) for o in cfg.topt)
+    b['flags']['interactive'] = int(cfg.interactive is True or (cfg.interactive is None and not fullish))
     b['var_rules'] = flexrun.var_rules_of(t)
     cc = ['gcc', '-w', '-O0', '-g', '-D_GNU_SOURCE', '-I', HARNESS, '-I', flexsrc, cf, '-o', exe]
     if cfg.sanitize:
@@ -128,7 +132,8 @@ def build_scanner(flex, flexsrc, workdir, name, rs, cfg, lex_seed=0, flex_timeou
 
 
 def case_text(rs, build, cfg, srcs, main, acts=None, wraps=None, sched=None, bufsize=16384,
-              maxevents=20000, eofact=None, eacts=None, readerr=None, eintr=None, allocfail=None, tfiles=None):
+              maxevents=20000, eofact=None, eacts=None, readerr=None, eintr=None, allocfail=None, tfiles=None,
+              logreads=False):
     lines = rs.case_lines(build.get('var_rules', ())) + build['table_lines']
     for i, s in enumerate(srcs):
         lines.append('src %d %s' % (i, bytes(s).hex()))
@@ -139,6 +144,11 @@ def case_text(rs, build, cfg, srcs, main, acts=None, wraps=None, sched=None, buf
     lines.append('bolneeded %d' % (1 if any(r['bol'] for r in rs.rules) else 0))
     lines.append('haslineno %d' % (1 if cfg.lineno else 0))
     lines.append('reentrant %d' % (1 if cfg.backend in ('r', 'c99') else 0))
+    if logreads:
+        # the harness prints, and the model predicts, how many bytes the scanner has asked its input
+        # routine for when each action starts (meaningful with 1-byte reads from a single source)
+        lines.append('logreads 1')
+        lines.append('interactive %d' % (1 if build['flags'].get('interactive') else 0))
     if cfg.array:
         lines.append('yylmax %d' % (cfg.yylmax or 8192))
     if any(r.get('chain') for r in rs.rules):
